@@ -69,6 +69,7 @@ class SymReal:
     __slots__ = ('n', 'd')
     __hash__ = None
     def __init__(self, n, d=ONE): self.n = n; self.d = d
+    def __bool__(self): return bool(SymBool(self.n != 0))
     @property
     def e(self): return self.n if self.d.eq(ONE) else self.n / self.d
     @staticmethod
@@ -155,3 +156,12 @@ class NPProxy:
             conj.append(d <= RV(Fraction(atol)) + RV(Fraction(rtol)) * absy)
         if not conj: return True
         return bool(SymBool(z3.And(*conj)))
+
+import builtins as _bi
+def sym_isinstance(obj, types):
+    """module-level `isinstance` for pgmpy modules with scalar branches: a SymReal is a float there
+    (on the float backend those scalars are np.float64, a float subclass)"""
+    if type(obj) is SymReal:
+        ts = types if isinstance(types, tuple) else (types,)
+        if float in ts: return True
+    return _bi.isinstance(obj, types)
